@@ -218,7 +218,23 @@ def gen_plan(seed, tier="quick", variant=None):
                     "group": GROUPS[0], "offset": 0, "metadata": None, "generation": -1, "member": ""})
         faults = [{"t": t_drop, "act": "cut_conns", "node": None},
                   {"kind": "connect", "from_t": round(t_drop + 0.01, 6), "not_host": "b%d" % x, "what": rng.choice(["refused", "refused", "sync_fail", "dns"])}]
-    if variant == "timeout" and rng.random() < 0.6:
+    if variant == "timeout" and random.Random(seed * 977 + 1).random() < 0.15:
+        # version discovery against a broker that does not answer it while the bootstrap host is unreachable: the probe
+        # is retried (with the same correlation id) on a connection that still remembers the first, timed-out one
+        r6 = random.Random(seed * 977 + 2)
+        cfg["warm"] = True
+        cfg["client"].update(discover=True, disconnect_on_timeout=False, timeout_ms=r6.choice([200, 1000]))
+        cfg.pop("apiversions", None)
+        faults = [{"api": 18, "node": None, "nth": 0, "act": "silent", "count": r6.choice([nb, 2 * nb, 50])},
+                  {"kind": "connect", "from_t": 0.04, "only_host": "kafka", "what": r6.choice(["refused", "sync_fail", "dns"])}]
+        ops = [o for o in ops if o.get("op") == "call" and o["kind"] in ("produce", "fetch")][:3] or \
+            [{"t": 0.1, "op": "call", "id": 0, "kind": "fetch", "tps": [all_tps[0]], "offset": 0, "max_bytes": 4096, "max_wait": 0, "min_bytes": 1}]
+        for i, o in enumerate(ops):
+            o["t"] = round(0.1 + i * r6.choice([0.0, 0.05, 0.5]), 6)
+            o["tps"] = [tp for tp in o["tps"] if tp[0] != "nosuch"] or [all_tps[0]]
+            if o["kind"] == "fetch":
+                o["max_wait"] = 0
+    elif variant == "timeout" and rng.random() < 0.6:
         # several requests share connections while a broker goes silent for a few of them: the oldest times out first,
         # the younger ones are still unanswered at that instant
         cfg["warm"] = True
@@ -285,7 +301,7 @@ def _run(w, plan):
     def connect_rule(att):
         for f in connect_rules:
             if "from_t" in f:
-                if att["t"] >= f["from_t"] and att["host"] != f.get("not_host"):
+                if att["t"] >= f["from_t"] and att["host"] != f.get("not_host") and f.get("only_host") in (None, att["host"]):
                     return {"kind": f["what"]}
             elif f["nth"] <= att["n"] < f["nth"] + f.get("count", 1):
                 return {"kind": f["what"]}
@@ -432,6 +448,11 @@ def _run(w, plan):
                 # broker clients that existed when the refresh was asked for and are still the same objects right after the
                 # merge (a request in progress may legitimately open a *new* client for an address it still knows)
                 rec["clients_after"] = sorted(n for n, o in rec.get("clients_before", {}).items() if client.clients.get(n) is o)
+            try:
+                rec["routed_topics_at_done"] = set(k.topic for k in (client.topics_to_brokers or {}))
+                rec["routed_groups_at_done"] = set(client._group_to_coordinator or {})
+            except Exception:
+                pass
             rec["t_done"] = wd.t
             rec["seq_done"] = wd.seq
             rec["timers_at_done"] = len(reactor.pending("client.py"))
@@ -770,6 +791,19 @@ def _oracles(w, plan, res, client, calls, state, cache_versions, unresolved, tim
             if got != order:
                 res.violate("C07", "C07:results-not-in-payload-order", "call %d (partial failure): responses %r, payloads %r" % (c["id"], got[:6], uniq[:6]))
             res.probe("partial_failure")
+    # a broker-agnostic request nobody cancelled does not end as a cancellation (None from load_metadata_for_topics is
+    # its way of saying "cancelled"): when the broker it waits on goes away it moves on to the next candidate
+    for c in calls.values():
+        wd = c["w"]
+        if c["kind"] not in ("metadata", "metadata_all", "coordinator") or wd is None or not wd.fires or c["after_close"]:
+            continue
+        if state["closed"] and state.get("close_t", 1e18) <= wd.t:
+            continue
+        res.oblige("C07")
+        gave_up = (wd.ok and wd.value is None and c["kind"] != "coordinator") or (wd.ok is False and wd.err == "CancelledError")
+        if gave_up:
+            res.violate("C07", "C07:broker-agnostic-request-given-up-as-cancelled:%s" % c["kind"],
+                        "call %d (%s) ended as a cancellation (%r) although neither it nor the client was cancelled or closed" % (c["id"], c["kind"], wd.value))
     # broker-agnostic requests: unavailable only after every known broker and every bootstrap host was tried
     for c in calls.values():
         wd = c["w"]
@@ -803,6 +837,7 @@ def _oracles(w, plan, res, client, calls, state, cache_versions, unresolved, tim
     # ---------------- C08: cache equals the metadata answer ----------------
     if not garbage_used:
         _check_c08(w, res, client, calls, state)
+        _check_c08_invalidation(w, res, calls, APIKEY)
     # ---------------- C20 ----------------
     if state["close_seq"] is not None:
         res.oblige("C20")
@@ -851,6 +886,9 @@ def _oracles(w, plan, res, client, calls, state, cache_versions, unresolved, tim
     for where, etype, msg, frames in sim.uncaught:
         if etype == "AlreadyCalledError":
             res.violate("C20", "C20:second-fire-attempt", "%s %r" % (where, frames))
+        if where == "timer:client.py":
+            # a request timer that outlived its request (or never had one) and blew up when it fired
+            res.violate("C11", "C11:request-timer-raised:%s" % etype, "a delayed call created by client.py raised %s: %s" % (etype, msg))
     w.check_wire("C04")
     _check_c04_fields(w, res, calls, written, APIKEY)
     faults = set(net.fault_counts)
@@ -931,6 +969,59 @@ def _check_c05(w, res, calls, APIKEY):
             res.oblige("C05")
             if got not in tables:  # (brokers may advertise different tables: the client holds one of the answers it was given)
                 res.violate("C05", "C05:api-versions-differ", "decoded %r, encoded by the brokers: %r" % (got[:4], [t[:4] for t in tables[:2]]))
+
+
+def _check_c08_invalidation(w, res, calls, APIKEY):
+    """A not-leader / unknown-partition answer (coordinator: not-coordinator / not-available) invalidates the cached
+    routing: when the call that received it completes, the topic (group) is no longer routable from the cache - whatever
+    fail_on_error says - unless a metadata (coordinator) answer that came after it has re-resolved it."""
+    cl = w.cluster
+    timeout = w.cfg["client"]["timeout_ms"] / 1000.0
+    ordered = [c for c in calls.values() if c["w"] is not None and c["w"].fires and c["kind"] in APIKEY and not c["after_close"]]
+    for c in ordered:
+        wd = c["w"]
+        if "routed_topics_at_done" not in c:
+            continue
+        key = APIKEY[c["kind"]]
+        # only when no other call of this API was outstanding meanwhile: then every answer in the window is this call's
+        if any(o is not c and o["kind"] == c["kind"] and o["seq"] <= wd.seq and (not o["w"].fires or o["w"].seq >= c["seq"]) for o in calls.values()
+               if o["w"] is not None):
+            continue
+        for e in cl.reqlog:
+            if e["key"] != key or e.get("resp_body") is None or e.get("delivered_seq") is None or e.get("act") in ("garbage", "cut_mid"):
+                continue
+            if not (c["seq"] <= e["delivered_seq"] <= wd.seq) or e["delivered_t"] - c["t"] >= timeout - 1e-9:
+                continue
+            bad_topics = set()
+            group_err = False
+            for t in e["resp_body"].get("topics", []):
+                for p in t["partitions"]:
+                    if p.get("error") in (6, 3) and c["kind"] in ("produce", "fetch", "offsets"):
+                        bad_topics.add(t["name"])
+                    if p.get("error") in (15, 16) and c["kind"] in ("offset_fetch", "offset_commit"):
+                        group_err = True
+            for name in sorted(bad_topics):
+                healed = any(m["key"] == kwire.METADATA and m.get("delivered_seq") is not None and e["delivered_seq"] < m["delivered_seq"] <= wd.seq and
+                             m.get("resp_body") and any(tt["name"] == name for tt in m["resp_body"]["topics"]) for m in cl.reqlog)
+                if healed:
+                    continue
+                res.oblige("C08")
+                if name in c["routed_topics_at_done"]:
+                    res.violate("C08", "C08:routing-not-invalidated-by-error-answer:%s" % c["kind"],
+                                "call %d (%s, fail_on_error=False) was answered not-leader/unknown-partition for %s; the topic was still routed from the cache when the call completed" % (
+                                    c["id"], c["kind"], name))
+                    return
+                res.probe("routing_invalidated_by_error_answer")
+            if group_err:
+                g = c["o"].get("group")
+                healed = any(m["key"] == kwire.FIND_COORDINATOR and m.get("delivered_seq") is not None and e["delivered_seq"] < m["delivered_seq"] <= wd.seq for m in cl.reqlog)
+                if not healed and g is not None:
+                    res.oblige("C08")
+                    if g in c["routed_groups_at_done"]:
+                        res.violate("C08", "C08:coordinator-not-invalidated-by-error-answer:%s" % c["kind"],
+                                    "call %d (%s) was answered not-coordinator/unavailable for group %s; the coordinator was still cached when the call completed" % (
+                                        c["id"], c["kind"], g))
+                        return
 
 
 def _check_c08(w, res, client, calls, state):
